@@ -19,7 +19,7 @@ RULE = ('seeded generator over input shape (1x1..24x24 quick / ..64 thorough; ev
 ASSUMPTIONS = ['numpy longdouble (80-bit) arithmetic is the reference for the defining sum',
                'phase arguments bounded (|2 pi alpha x u| < 1e4 rad)']
 PLAN = {'quick': {'gen': 8}, 'thorough': {'gen': 16, 'tests': 1, 'docs': 1}}
-REQUIRED_BUCKETS = ['shift:nearby', 'out:view', 'alpha:narrow-float', 'alpha:extreme', 'in:1x1', 'in:even', 'in:odd', 'in:nonsquare', 'alpha:iso', 'alpha:aniso',
+REQUIRED_BUCKETS = ['shift:nearby', 'out:view', 'out:extended-precision-input', 'out:unaligned', 'alpha:narrow-float', 'alpha:extreme', 'in:1x1', 'in:even', 'in:odd', 'in:nonsquare', 'alpha:iso', 'alpha:aniso',
                     'shift0', 'shift+offset', 'unitary:True', 'unitary:False', 'out:given', 'out:none',
                     'inverse:unitary', 'inverse:nonunitary', 'inverse:general', 'cache:evict', 'sweep', 'out:aliased-tall',
                     'refused-then-reused']
@@ -297,11 +297,27 @@ def workload(ctx, lentil):
                 else:
                     buf = np.asfortranarray(buf)
                 ctx.bucket('out:view')
+            f_out = f
+            if i % 3 == 2 and big is None:
+                if i % 2:
+                    # the plain documented buffer (C-contiguous complex128) for an input held in extended precision
+                    f_out = np.asarray(f).astype(np.clongdouble)
+                    ctx.bucket('out:extended-precision-input')
+                else:
+                    # a buffer that is contiguous but not aligned (a memory-mapped file with a header, a field of a record array)
+                    raw = np.zeros(M * N * 16 + 1, dtype=np.uint8)
+                    buf = raw[1:].view(complex).reshape(M, N)
+                    ctx.bucket('out:unaligned')
             try:
-                res = dft2(f, alpha_arg, out=buf, **kwargs)
+                res = dft2(f_out, alpha_arg, out=buf, **kwargs)
             except ValueError:
                 continue                                  # the probe has recorded the refusal
-            ctx.check(res is buf and np.array_equal(buf, fresh), 'out=same', 'dft2|out-values',
+            if f_out is not f:
+                # (an extended-precision product rounded into a complex128 buffer: the same values to double rounding)
+                same_vals = bool(np.allclose(buf, fresh, rtol=0, atol=8 * rm.EPS * max(float(np.max(np.abs(fresh))), 1e-300)))
+            else:
+                same_vals = np.array_equal(buf, fresh)
+            ctx.check(res is buf and same_vals, 'out=same', 'dft2|out-values',
                       'dft2 with out= differs from a fresh allocation', desc)
             if big is not None:
                 big[2:2 + M, 3:3 + N] = 7 - 3j
